@@ -312,14 +312,37 @@ def _anchor_in(expect: str, closure_text: str) -> bool:
 
 def _annotate_closures(body: str, unit: Unit, log: list) -> str:
     n_expected = len(find_closures(body))
+    # which closure of the body each closure contract belongs to: the k-th one if it still carries the anchor text; otherwise (closures were
+    # added or removed around it) the ONLY closure that carries it
+    cls0 = find_closures(body)
+    def carries(c, ann):
+        t = body[c.start:c.end]
+        return not ann.expect or _norm(ann.expect) in _norm(t) or _anchor_in(ann.expect, t)
+    where: dict = {}
+    for k in sorted(unit.closures):
+        ann = unit.closures[k]
+        if k <= len(cls0) and carries(cls0[k - 1], ann) and (k - 1) not in where.values():
+            where[k] = k - 1
+            continue
+        if not ann.expect:
+            raise AnchorLost(f"{unit.name}: closure #{k} not found ({len(cls0)} closures)")
+        cand = [i for i, c in enumerate(cls0) if carries(c, ann) and i not in where.values()]
+        # nested closures: an outer closure contains the text of the inner one; prefer the innermost (shortest) carrier
+        if len(cand) > 1:
+            inner = [i for i in cand if not any(j != i and cls0[i].start <= cls0[j].start and cls0[j].end <= cls0[i].end for j in cand)]
+            cand = inner if len(inner) == 1 else cand
+        if len(cand) != 1:
+            if k > len(cls0):
+                raise AnchorLost(f"{unit.name}: closure #{k} not found ({len(cls0)} closures)")
+            raise AnchorLost(f"{unit.name}: closure #{k} no longer contains `{ann.expect}`")
+        where[k] = cand[0]
+        log.append(f"E2 {unit.name}: contract of closure #{k} re-anchored by its text to closure #{cand[0] + 1} of this tree")
+    if sorted(where.values()) != [where[k] for k in sorted(where)]:
+        raise AnchorLost(f"{unit.name}: closure contracts no longer appear in their original order")
     for k in sorted(unit.closures, reverse=True):
         ann: Cl = unit.closures[k]
         cls = find_closures(body)
-        if k > len(cls):
-            raise AnchorLost(f"{unit.name}: closure #{k} not found ({len(cls)} closures)")
-        c = cls[k - 1]
-        if ann.expect and _norm(ann.expect) not in _norm(body[c.start:c.end]) and not _anchor_in(ann.expect, body[c.start:c.end]):
-            raise AnchorLost(f"{unit.name}: closure #{k} no longer contains `{ann.expect}`")
+        c = cls[where[k]]
         ps, lets = [], []
         cexp = expected_names().get(unit.name, {}).get("closures", {}).get(str(k))
         if cexp is not None and len(cexp) != len(c.params):
